@@ -1,1 +1,289 @@
-// harnesses: rotate
+// harnesses over /repo/src/crypto/rotate.rs  (C16 rotation message codec)
+
+fn okio<T>(r: Result<T, io::Error>) -> Option<T> {
+    match r {
+        Ok(v) => Some(v),
+        Err(e) => {
+            std::mem::forget(e);
+            None
+        }
+    }
+}
+
+fn key_of(bytes: &[u8; 32], n: usize) -> EcdhPublicKey {
+    let mut v: SmallVec<[u8; 96]> = SmallVec::new();
+    let mut i = 0;
+    while i < n {
+        v.push(bytes[i]);
+        i += 1;
+    }
+    EcdhPublicKey::new(&X25519, v)
+}
+
+fn same_key(k: &EcdhPublicKey, bytes: &[u8; 32], n: usize) -> bool {
+    let b = k.bytes();
+    if b.len() != n {
+        return false;
+    }
+    let mut i = 0;
+    while i < n {
+        if b[i] != bytes[i] {
+            return false;
+        }
+        i += 1;
+    }
+    true
+}
+
+/// C16-H2a: RotationMessage::write_to -> read_from is the identity (message id, proposed key, optional confirmed key)
+fn rotation_roundtrip(np: usize, nc: usize) {
+    let id: u64 = kani::any();
+    let p: [u8; 32] = kani::any();
+    let c: [u8; 32] = kani::any();
+    let msg = RotationMessage { message_id: id, propose: key_of(&p, np), confirm: if nc > 0 { Some(key_of(&c, nc)) } else { None } };
+    let mut wire = [0u8; 96];
+    let len = {
+        let mut w = Cursor::new(&mut wire[..]);
+        assert!(okio(msg.write_to(&mut w)).is_some());
+        w.position() as usize
+    };
+    assert!(len == 8 + 1 + np + 1 + nc);
+    let back = okio(RotationMessage::read_from(Cursor::new(&wire[..len])));
+    assert!(back.is_some());
+    let back = back.unwrap();
+    assert!(back.message_id == id);
+    assert!(same_key(&back.propose, &p, np));
+    match &back.confirm {
+        None => assert!(nc == 0),
+        Some(k) => assert!(nc > 0 && same_key(k, &c, nc)),
+    }
+    std::mem::forget(back);
+    std::mem::forget(msg);
+    witness!();
+}
+macro_rules! rot_inst {
+    ($($name:ident = ($a:expr, $b:expr)),*) => {$(
+        #[cfg_attr(kani, kani::proof, kani::unwind(36))]
+        pub fn $name() {
+            rotation_roundtrip($a, $b)
+        }
+    )*};
+}
+rot_inst!(c16_rotation_rt_p32_c0 = (32, 0), c16_rotation_rt_p32_c32 = (32, 32), c16_rotation_rt_p0_c0 = (0, 0), c16_rotation_rt_p1_c31 = (1, 31));
+
+/// C16-H2b: RotationMessage::read_from on `total` arbitrary bytes: never a fault; accepted iff the two length fields
+/// fit; the decoded value reflects exactly those bytes
+fn rotation_decode_total(total: usize) {
+    let bytes: [u8; 24] = kani::any();
+    let res = okio(RotationMessage::read_from(Cursor::new(&bytes[..total])));
+    let ok = total >= 10 && {
+        let l1 = bytes[8] as usize;
+        total >= 10 + l1 && {
+            let l2 = bytes[9 + l1] as usize;
+            total >= 10 + l1 + l2
+        }
+    };
+    assert!(res.is_some() == ok);
+    if let Some(m) = res {
+        let mut idb = [0u8; 8];
+        idb.copy_from_slice(&bytes[..8]);
+        assert!(m.message_id == u64::from_be_bytes(idb));
+        assert!(m.propose.bytes().len() == bytes[8] as usize);
+        std::mem::forget(m);
+    }
+    witness!();
+}
+macro_rules! rotd_inst {
+    ($($name:ident = $n:expr),*) => {$(
+        #[cfg_attr(kani, kani::proof, kani::unwind(258))]
+        pub fn $name() {
+            rotation_decode_total($n)
+        }
+    )*};
+}
+rotd_inst!(c16_rotation_decode_total00 = 0, c16_rotation_decode_total08 = 8, c16_rotation_decode_total09 = 9, c16_rotation_decode_total10 = 10,
+           c16_rotation_decode_total12 = 12, c16_rotation_decode_total24 = 24);
+
+/// rotation state of a side whose proposal was not confirmed yet and is due for re-sending on the next cycle
+pub fn resending_state() -> RotationState {
+    let (private_key, _public_key) = RotationState::create_key();
+    RotationState { confirmed: None, pending: None, proposed: Some(private_key), message_id: 1, timeout: true }
+}
+
+// ===================================================================================================== C07 kernels
+/// takes the rotation message out of `buf`. The wire layout (id, length byte 32, key[, length byte 32, key] / 0) is
+/// asserted and the value rebuilt with concrete lengths: length bytes read back from the 64 KiB buffer are not constant
+/// for symex, and the decoder itself is decided separately (c16_rotation_*)
+fn msg_of(buf: &mut MsgBuffer, has_confirm: bool) -> RotationMessage {
+    let m = buf.message();
+    assert!(m.len() == if has_confirm { 8 + 1 + 32 + 1 + 32 } else { 8 + 1 + 32 + 1 });
+    let mut idb = [0u8; 8];
+    idb.copy_from_slice(&m[..8]);
+    assert!(m[8] == 32);
+    let mut p = [0u8; 32];
+    p.copy_from_slice(&m[9..41]);
+    let mut c = [0u8; 32];
+    if has_confirm {
+        assert!(m[41] == 32);
+        c.copy_from_slice(&m[42..74]);
+    } else {
+        assert!(m[41] == 0);
+    }
+    let msg = RotationMessage { message_id: u64::from_be_bytes(idb), propose: key_of(&p, 32), confirm: if has_confirm { Some(key_of(&c, 32)) } else { None } };
+    buf.clear();
+    msg
+}
+
+fn same_key_bytes(a: &Key, b: &Key) -> bool {
+    if a.len() != b.len() {
+        return false;
+    }
+    let mut i = 0;
+    while i < 32 {
+        if i < a.len() && a[i] != b[i] {
+            return false;
+        }
+        i += 1;
+    }
+    true
+}
+
+fn xor_is(k: &Key, x: &[u8], y: &[u8]) -> bool {
+    if k.len() != 32 || x.len() != 32 || y.len() != 32 {
+        return false;
+    }
+    let mut i = 0;
+    while i < 32 {
+        if k[i] != x[i] ^ y[i] {
+            return false;
+        }
+        i += 1;
+    }
+    true
+}
+
+/// One loss-free rotation round, decided as its two halves (a three-operation run of both machines in one harness
+/// exhausts 24 GB). ECDH is the model's commutative function: shared(a, pub(b)) = pub(a) XOR pub(b), so "both ends
+/// derive the same key material" is expressible from the public values that travel in the messages.
+///
+/// Receiver half, step 1: a proposal P with an id above the own one is answered by a fresh key pair; the key
+/// shared(C, P) and the public value C are kept PENDING (nothing is installed or sent yet); a proposal without a
+/// confirmation never switches the sending key.
+#[cfg_attr(kani, kani::proof, kani::unwind(36))]
+pub fn c07_receiver_half_proposal_becomes_pending() {
+    let p: [u8; 32] = kani::any();
+    let own: u64 = kani::any();
+    let id: u64 = kani::any();
+    kani::assume(id > own);
+    let mut a = RotationState { confirmed: None, pending: None, proposed: None, message_id: own, timeout: true };
+    let r = a.process_message(RotationMessage { message_id: id, propose: key_of(&p, 32), confirm: None });
+    assert!(r.is_none());
+    assert!(a.pending.is_some() && a.proposed.is_none() && a.message_id == own && !a.timeout);
+    let (k, c) = a.pending.as_ref().unwrap();
+    assert!(xor_is(k, c.bytes(), &p));
+    std::mem::forget(a);
+    witness!();
+}
+
+/// Receiver half, step 2: on its next cycle a node with a pending (key K, public value C) and no outstanding proposal
+/// installs K for RECEIVING under its next even id and sends exactly C as confirmation under that id, together with a
+/// fresh proposal of its own - so the peer can only start sending with K after this node holds it.
+#[cfg_attr(kani, kani::proof, kani::unwind(36))]
+pub fn c07_receiver_half_cycle_installs_then_confirms() {
+    let kbytes: [u8; 32] = kani::any();
+    let cbytes: [u8; 32] = kani::any();
+    let own: u64 = kani::any();
+    kani::assume(own < u64::MAX - 4);
+    let mut k: Key = SmallVec::new();
+    let mut i = 0;
+    while i < 32 {
+        k.push(kbytes[i]);
+        i += 1;
+    }
+    let mut a = RotationState { confirmed: None, pending: Some((k, key_of(&cbytes, 32))), proposed: None, message_id: own, timeout: false };
+    let mut out = MsgBuffer::new(8);
+    let ka = a.cycle(&mut out);
+    assert!(ka.is_some());
+    let ka = ka.unwrap();
+    assert!(!ka.use_for_sending && ka.id == own + 2);
+    assert!(ka.key.len() == 32);
+    let mut i = 0;
+    while i < 32 {
+        assert!(ka.key[i] == kbytes[i]);
+        i += 1;
+    }
+    let m = msg_of(&mut out, true);
+    assert!(m.message_id == own + 2);
+    assert!(same_key(m.confirm.as_ref().unwrap(), &cbytes, 32));
+    assert!(a.proposed.is_some() && a.pending.is_none() && a.confirmed.is_some() && a.message_id == own + 2);
+    std::mem::forget(a);
+    witness!();
+}
+
+/// Sender half: a node with an outstanding proposal (public value P_b) that receives a message with a higher id carrying
+/// confirmation C starts SENDING with shared(P_b, C) under exactly that message id - the key and id the confirming peer
+/// installed for receiving (receiver half) - and keeps the peer's new proposal pending.
+#[cfg_attr(kani, kani::proof, kani::unwind(36))]
+pub fn c07_sender_half_switches_to_confirmed_key() {
+    let c: [u8; 32] = kani::any();
+    let x: [u8; 32] = kani::any();
+    let own: u64 = kani::any();
+    let id: u64 = kani::any();
+    kani::assume(id > own);
+    let (private_key, public_key) = RotationState::create_key();
+    let mut pb = [0u8; 32];
+    pb.copy_from_slice(&public_key.bytes()[..32]);
+    let mut b = RotationState { confirmed: None, pending: None, proposed: Some(private_key), message_id: own, timeout: true };
+    let kb = b.process_message(RotationMessage { message_id: id, propose: key_of(&x, 32), confirm: Some(key_of(&c, 32)) });
+    assert!(kb.is_some());
+    let kb = kb.unwrap();
+    assert!(kb.use_for_sending && kb.id == id);
+    assert!(xor_is(&kb.key, &pb, &c));
+    assert!(b.proposed.is_none() && b.pending.is_some() && !b.timeout);
+    // the own id only moves on the own cycle
+    assert!(b.message_id == own);
+    std::mem::forget(b);
+    witness!();
+}
+
+/// a duplicated or stale rotation message (id not above the own id) is ignored: nothing installed, state untouched
+#[cfg_attr(kani, kani::proof, kani::unwind(36))]
+pub fn c07_stale_or_duplicate_message_is_ignored() {
+    let own: u64 = kani::any();
+    let id: u64 = kani::any();
+    let p: [u8; 32] = kani::any();
+    let c: [u8; 32] = kani::any();
+    let has_c: bool = kani::any();
+    kani::assume(id <= own);
+    let (private_key, _pk) = RotationState::create_key();
+    let mut s = RotationState { confirmed: None, pending: None, proposed: Some(private_key), message_id: own, timeout: true };
+    let r = s.process_message(RotationMessage { message_id: id, propose: key_of(&p, 32), confirm: if has_c { Some(key_of(&c, 32)) } else { None } });
+    assert!(r.is_none());
+    assert!(s.message_id == own && s.timeout && s.pending.is_none() && s.proposed.is_some() && s.confirmed.is_none());
+    std::mem::forget(s);
+    witness!();
+}
+
+/// a lost proposal only postpones: the next cycle arms the timeout, the one after re-sends the SAME proposal under the
+/// same id (no new key material, nothing installed)
+#[cfg_attr(kani, kani::proof, kani::unwind(36))]
+pub fn c07_lost_message_is_resent_unchanged() {
+    let mut out = MsgBuffer::new(8);
+    let mut b = RotationState::new(true, &mut out);
+    let first = msg_of(&mut out, false);
+    let r1 = b.cycle(&mut out);
+    assert!(r1.is_none() && out.is_empty());
+    let r2 = b.cycle(&mut out);
+    assert!(r2.is_none() && !out.is_empty());
+    let again = msg_of(&mut out, false);
+    assert!(again.message_id == first.message_id && again.confirm.is_none());
+    let (x, y) = (first.propose.bytes(), again.propose.bytes());
+    assert!(x.len() == 32 && y.len() == 32);
+    let mut i = 0;
+    while i < 32 {
+        assert!(x[i] == y[i]);
+        i += 1;
+    }
+    std::mem::forget(b);
+    witness!();
+}
